@@ -284,6 +284,6 @@ def cases(draw, corelang=False):
 
 
 CLAUSES = [
-    Clause('legacy-vs-native', check_case, kind='random', strategy=cases, budget={'quick': 6000, 'thorough': 50000}),
-    Clause('corelang', check_case, kind='random', strategy=lambda: cases(corelang=True), budget={'quick': 320, 'thorough': 4000}),
+    Clause('legacy-vs-native', check_case, kind='random', strategy=cases, budget={'quick': 6000, 'thorough': 150000}),
+    Clause('corelang', check_case, kind='random', strategy=lambda: cases(corelang=True), budget={'quick': 320, 'thorough': 12000}),
 ]
